@@ -217,16 +217,32 @@ def _(P, v): return [P["ple1"].p_norm(2), P["ple1"].p_norm(3), P["ple1"].sup_nor
 def _(P, v): return P["ple1"] + P["ple2"]
 @ep("exact sub norm")
 def _(P, v): return (P["ple1"] - P["ple2"]).p_norm(2)
-@ep("exact mul div neg")
-def _(P, v): return [P["ple1"] * 2.0, 3 * P["ple2"], P["ple1"] / 4.0, -P["ple2"]]
+@ep("exact mul rmul")
+def _(P, v): return [P["ple1"] * 2.0, 3 * P["ple2"]]
+@ep("exact div")
+def _(P, v): return P["ple1"] / 4.0
+@ep("exact neg")
+def _(P, v): return -P["ple2"]
+@ep("exact add (deeper right operand)")
+def _(P, v): return P["ple2"] + P["ple1"]
 @ep("exact getitem")
 def _(P, v): return P["ple1"][0]
 @ep("PersLandscapeApprox construct")
 def _(P, v): return PersLandscapeApprox(dgms=[P["D1"], P["D2"]], hom_deg=0, num_steps=7)
-@ep("approx add sub")
-def _(P, v): return [P["pla1"] + P["pla2"], P["pla1"] - P["pla2"], P["pla2"] - P["pla1"]]
-@ep("approx mul div neg norm")
-def _(P, v): return [P["pla1"] * 2.0, P["pla1"] / 2.0, -P["pla1"], P["pla1"].p_norm(2), P["pla1"].sup_norm()]
+@ep("approx add")
+def _(P, v): return P["pla1"] + P["pla2"]
+@ep("approx sub")
+def _(P, v): return P["pla1"] - P["pla2"]
+@ep("approx sub (shallower left operand)")
+def _(P, v): return P["pla2"] - P["pla1"]
+@ep("approx mul")
+def _(P, v): return P["pla1"] * 2.0
+@ep("approx div")
+def _(P, v): return P["pla1"] / 2.0
+@ep("approx neg")
+def _(P, v): return -P["pla1"]
+@ep("approx norms")
+def _(P, v): return [P["pla1"].p_norm(2), P["pla1"].sup_norm()]
 @ep("approx values_to_pairs")
 def _(P, v): return P["pla2"].values_to_pairs()
 @ep("snap_pl")
